@@ -94,6 +94,11 @@ func NewPebbleScanner(dbPath string, opts PebbleScannerOptions) (*PebbleScanner,
 		absPath, _ = filepath.Abs(dbPath)
 	}
 	absPath = resolveRealLocation(dbPath, absPath)
+	// A location that cannot be made absolute (the working directory has been removed, so Getwd
+	// fails) cannot be compared with the protected directories: `../../etc/x` still leads there.
+	if !filepath.IsAbs(absPath) {
+		return nil, fmt.Errorf("security violation: cannot determine the real location of database %q", dbPath)
+	}
 	// Restricts database operations to non critical directories.
 	// Initializing a database in system roots could allow an attacker
 	// to overwrite binaries or configurations if the process has elevated privileges.
